@@ -217,7 +217,7 @@ def apply_edits(wn, scn2, edits):
                 continue
             wn.get_link(e['id']).initial_status = e['value']
             lm[e['id']]['status'] = e['value']
-        elif k == 'same_simulator':
+        elif k in ('same_simulator', 'short_first_run'):
             pass
         elif k == 'multiplier':
             wn.options.hydraulic.demand_multiplier = e['value']
@@ -244,12 +244,16 @@ def edit_and_rerun(scn):
     s1 = world.clone(scn)
     s1['faults'] = []
     wn = world.build(s1)
+    if any(e['kind'] == 'short_first_run' for e in scn['edits']):
+        s1['options']['duration'] = s1['options']['hyd_step']     # the first run ends after one hydraulic step; the rerun is the full one
     holder = {} if any(e['kind'] == 'same_simulator' for e in scn['edits']) else None
     first = runsim.run_world(s1, wn=wn, sim_holder=holder)
     if first.exc is not None or not first.parts or first.parts[-1].error_code is not None:
         return None
     s2 = world.clone(s1)
+    s2['options']['duration'] = scn['options']['duration']
     apply_edits(wn, s2, scn['edits'])
+    wn.options.time.duration = s2['options']['duration']
     wn.reset_initial_values()
     second = runsim.run_world(s2, wn=wn, sim_holder=holder)
     second.tables = concat(second.parts) if second.parts else None
